@@ -403,6 +403,16 @@ func emptyCall(c *emptyCell) (res error, bad error) {
 			return valid.Var(v, joined), nil
 		case "object":
 			return valid.NewVVar().SetRules(c.Rules...).Valid(v), nil
+		case "ptr", "ptrptr":
+			// the value handed over through one / two levels of pointers: Var judges what they point at
+			p := reflect.New(reflect.TypeOf(v))
+			p.Elem().Set(reflect.ValueOf(v))
+			if c.API == "ptr" {
+				return valid.Var(p.Interface(), c.Rules...), nil
+			}
+			pp := reflect.New(p.Type())
+			pp.Elem().Set(p)
+			return valid.Var(pp.Interface(), c.Rules...), nil
 		}
 		return nil, fmt.Errorf("unknown api %q for carrier var", c.API)
 	case "map", "mapiface":
